@@ -78,6 +78,8 @@ def run(rep, work, rng, tier):
     sel = lambda ln: ln.split(' ', 1)[0] in ('save', 'fsum', 'load', 'snap')
     (c, _), (m, _), nd = common.correspondence(rep, work, cases, select=sel, label='saved bytes and reloaded object at the limits')
     bad = 0; table = {}
+    # C17_within_limits_end_to_end: where the extracted predicate says the object is within every limit, the reload must be equal
+    appl = common.theorem_applicability(work, cases); proved = {}
     for cid, lines in cases:
         cl, cs = c.get(cid, ([], 'missing'))
         ops = harness.split_ops(lines, cl)
@@ -99,6 +101,12 @@ def run(rep, work, rng, tier):
             verdict = 'same' if not d else 'differs:' + d[0].split(' ')[0]
         else: verdict = 'no-result:' + cs
         table['%s=%s' % (L, v)] = verdict
+        fl = appl.get(cid) or [None]
+        if fl[0] is not None:
+            proved['%s=%s' % (L, v)] = bool(fl[0][0])
+            if fl[0][0] and verdict != 'same':
+                if rep.violation('oracle', 'content with %s = %s meets the hypotheses of C17_within_limits_end_to_end (provably reloaded unchanged by the model) but the implementation: %s' % (L, v, verdict),
+                                 script=[l[:300] for l in lines if not l.startswith('fsum')], signature=None): bad += 1
         ok = verdict in ('same', 'save-refused') if not inside else verdict == 'same'
         if not ok:
             sig = 'content-beyond-format-capacity' if (not inside and (beyond or L in ('groups', 'parameter-blocks', 'dimension-count', 'frames'))) else c01.classify(s0, 'load')
@@ -106,4 +114,4 @@ def run(rep, work, rng, tier):
                              script=[l[:300] for l in lines if not l.startswith('fsum')], signature=sig): bad += 1
     rep.coverage.update(dict(evaluations=len(cases), distinct_nontrivial=len(table),
         rule='for each capacity limit L of the format: content at L-1, L, L+1 and far beyond (and pairs at the limit), built through the API, saved and reloaded by the real library; at or below L the reloaded content must equal the saved one, beyond L saving must throw or the content must still be equal',
-        samples=[cases[-1][1][:4]], verdicts=table, disagreements=nd, oracle_failures=bad))
+        samples=[cases[-1][1][:4]], verdicts=table, hypotheses_of_the_end_to_end_theorem_hold=proved, excluded_by={k: [common.LS_HYPOTHESES[i] for i, b in enumerate((appl.get(c_) or [None])[0][2]) if b == '0'] for c_, k in ((c_, '%s=%s' % meta[c_]) for c_ in meta) if (appl.get(c_) or [None])[0] is not None and not (appl.get(c_) or [None])[0][0]}, disagreements=nd, oracle_failures=bad))
